@@ -197,6 +197,12 @@ class World:
             cu.log.raiseExceptions = mode
         self.stats["oracle"] += 1
         self.stats["probe:restart"] += 1
+        prefixes = [r.prefix for r in s.cssRules if r.typeString == "NAMESPACE_RULE"]
+        if len(set(prefixes)) < len(prefixes):
+            # two @namespace rules bind one prefix (reachable through the text / prefix setter of a rule, C15's
+            # territory): the parser merges them into the place of the first one, which moves that rule relative to
+            # comments in between - no rule is lost to an ordering error: compared as multisets
+            a, b2 = sorted(a), sorted(b2)
         if a != b2:
             raise Viol("I5_restart_keeps_rules", "restart:kinds", f"live sheet kinds {a} but its serialisation {b!r} reparses to {b2}")
         return "same"
